@@ -116,6 +116,11 @@ structure ColCfg (F : Type) where
   cats : List Key := []
   embed : String → List (Val F) := fun _ => []
 
+/-- the string handed to a text / image embedder: the harness passes `str(cell)` as `.text` -/
+def cellText : Cell F → String
+  | .text s => s
+  | _ => ""
+
 /-- position of a value in the ordered category list -/
 def catPos (cats : List Key) (k : Key) : Option Nat := cats.findIdx? (· == k)
 
@@ -131,8 +136,8 @@ def encodeCell (cfg : ColCfg F) : Stype → Cell F → List (Val F)
   | .timestamp, .time s => (Cal.components s).map .int
   | .timestamp, _ => Cal.missingComponents.map .int
   | .embedding, .vec v => v
-  | .text_embedded, .text s => cfg.embed s
-  | .image_embedded, .text s => cfg.embed s
+  | .text_embedded, c => cfg.embed (cellText c)
+  | .image_embedded, c => cfg.embed (cellText c)
   | _, _ => []       -- missing / empty sequence; anything else is outside the typed domain
 
 /-! ### the mappers, in the shape of the code -/
@@ -226,10 +231,6 @@ def metOfRows (vecs : List (List (Val F))) : MET (Val F) :=
 def cellVec : Cell F → List (Val F)
   | .vec v => v
   | _ => []
-
-def cellText : Cell F → String
-  | .text s => s
-  | _ => ""
 
 /-- `EmbeddingTensorMapper.forward` without embedder: `np.stack(ser.values)`. -/
 def embeddingForward (cells : List (Cell F)) : MET (Val F) := metOfRows (cells.map cellVec)
